@@ -233,6 +233,119 @@ def _hit(l, line):
     return l.strip() == line.strip()
 
 
+RENDER_SPEC = """
+    requires render_config.image_size.w as int * render_config.image_size.h as int <= usize::MAX,
+        eval_config.tile_sizes is Some ==> sizes_wf(eval_config.tile_sizes->Some_0.0@),
+    ensures r is Some ==> {
+        let (w, h) = (render_config.image_size.w as int, render_config.image_size.h as int);
+        &&& r->Some_0.data@.len() == w * h
+        // every pixel of the image: the value of the shape at that pixel, or a fill with the sign of that value
+        &&& forall|x: int, y: int| 0 <= x < w && 0 <= y < h ==> px_ok(render_config.pixel_perfect, b.sh().f(), #[trigger] r->Some_0.data@[pidx(w, x, y)], f_of(x as usize), f_of(y as usize), render_config.z)
+    }
+"""
+RD_START = """    let ghost t_ = tile_sizes.0@[0] as int;
+    let ghost f_ = b.sh().f();
+    let ghost pp_ = render_config.pixel_perfect;
+    let ghost z_ = render_config.z;
+    let ghost w_ = width as int;
+    let ghost h_ = height as int;
+    proof {
+        if eval_config.tile_sizes is Some { lemma_suffix_wf(tile_sizes.0@, eval_config.tile_sizes->Some_0.0@); } else { lemma_suffix_wf(tile_sizes.0@, default_tile_sizes.0@); }
+        assert(t_ >= 1 && t_ * t_ <= 16777216);
+        assert(t_ <= 16777216) by (nonlinear_arith) requires t_ >= 1, t_ * t_ <= 16777216;
+    }"""
+RD_COMMON = """image.size == render_config.image_size, image.data@.len() == w_ * h_, w_ == render_config.image_size.w, h_ == render_config.image_size.h, w_ * h_ <= usize::MAX, width == w_, height == h_,
+            t_ == tile_sizes.0@[0], t_ >= 1, t_ <= 16777216, t_ * t_ <= 16777216, tile_sizes.0@.len() >= 1,"""
+RD_INV_K = """        invariant """ + RD_COMMON + """ f_ == shape.f(), pp_ == render_config.pixel_perfect, z_ == render_config.z,
+            forall|k: int| 0 <= k < tiles@.len() ==> {
+                let e = #[trigger] tiles@[k];
+                e.0.corner.x % (t_ as usize) == 0 && e.0.corner.y % (t_ as usize) == 0 && e.1.data@.len() == t_ * t_ && e.0.corner.x < w_ && e.0.corner.y < h_
+                && tile_ok(pp_, f_, e.1.data@, t_, e.0.corner.x as int, e.0.corner.y as int, t_, z_) },
+            forall|x: int, y: int| 0 <= x < w_ && 0 <= y < h_ && covered(tiles@, k_ as int, t_, x, y) ==> px_ok(pp_, f_, #[trigger] image.data@[pidx(w_, x, y)], f_of(x as usize), f_of(y as usize), z_),"""
+RD_K_BODY = """        let ghost cx_ = tile.corner.x as int;
+        let ghost cy_ = tile.corner.y as int;
+        proof { assert(tiles@[k_ as int].0.corner.x == cx_); assert(0 * t_ == 0); }"""
+RD_TILE = """cx_ == tile.corner.x, cy_ == tile.corner.y, cx_ < w_, cy_ < h_, cx_ % t_ == 0, cy_ % t_ == 0,
+                data.data@.len() == t_ * t_, tile_ok(pp_, f_, data.data@, t_, cx_, cy_, t_, z_), 0 <= k_ < tiles@.len(), *tile == tiles@[k_ as int].0,"""
+RD_INV_J = """            invariant """ + RD_COMMON + """ index == j * t_, """ + RD_TILE + """
+                forall|x: int, y: int| 0 <= x < w_ && 0 <= y < h_ && (covered(tiles@, k_ as int, t_, x, y) || (cx_ <= x < cx_ + t_ && cy_ <= y < cy_ + j)) ==> px_ok(pp_, f_, #[trigger] image.data@[pidx(w_, x, y)], f_of(x as usize), f_of(y as usize), z_),"""
+RD_J_BODY = """            proof { assert((j + 1) * t_ <= t_ * t_) by (nonlinear_arith) requires 0 <= j < t_; assert((j + 1) * t_ == j * t_ + t_) by (nonlinear_arith); }"""
+RD_INV_I = """                invariant """ + RD_COMMON + """ index == j * t_ + i, 0 <= j < t_, (j + 1) * t_ <= t_ * t_, (j + 1) * t_ == j * t_ + t_, y == j + cy_, """ + RD_TILE + """
+                    forall|x: int, y2: int| 0 <= x < w_ && 0 <= y2 < h_ && (covered(tiles@, k_ as int, t_, x, y2) || (cx_ <= x < cx_ + t_ && (cy_ <= y2 < cy_ + j || (y2 == cy_ + j && x < cx_ + i)))) ==> px_ok(pp_, f_, #[trigger] image.data@[pidx(w_, x, y2)], f_of(x as usize), f_of(y2 as usize), z_),"""
+RD_WRITE = """                    proof {
+                        lemma_root_off(t_, cx_, cy_, i as int, j as int);
+                        assert(in_tile(x as int, y as int, cx_, cy_, t_));
+                        assert(index == off(t_, x as int, y as int));
+                        assert(px_ok(pp_, f_, data.data@[off(t_, x as int, y as int)], f_of(x), f_of(y), z_));
+                        assert(pidx(w_, x as int, y as int) < w_ * h_) by (nonlinear_arith) requires 0 <= x < w_, 0 <= y < h_;
+                        // the written index is the index of no other pixel
+                        assert forall|x2: int, y2: int| 0 <= x2 < w_ && 0 <= y2 < h_ && (x2 != x || y2 != y) implies #[trigger] pidx(w_, x2, y2) != pidx(w_, x as int, y as int) by {
+                            if pidx(w_, x2, y2) == pidx(w_, x as int, y as int) { lemma_loc_inj(w_, x2, y2, x as int, y as int); }
+                        }
+                    }"""
+RD_K_END = """        proof {
+            // every pixel of the image covered by this root tile has now been written
+            assert forall|x: int, y: int| 0 <= x < w_ && 0 <= y < h_ && covered(tiles@, k_ + 1, t_, x, y) implies px_ok(pp_, f_, #[trigger] image.data@[pidx(w_, x, y)], f_of(x as usize), f_of(y as usize), z_) by {
+                if !covered(tiles@, k_ as int, t_, x, y) {
+                    let k = choose|k: int| 0 <= k < k_ + 1 && (#[trigger] tiles@[k]).0.corner.x == x - x % t_ && tiles@[k].0.corner.y == y - y % t_;
+                    assert(k == k_);
+                    vstd::arithmetic::div_mod::lemma_mod_pos_bound(x, t_);
+                    vstd::arithmetic::div_mod::lemma_mod_pos_bound(y, t_);
+                }
+            }
+        }"""
+RD_END = """    proof {
+        assert forall|x: int, y: int| 0 <= x < w_ && 0 <= y < h_ implies px_ok(pp_, f_, #[trigger] image.data@[pidx(w_, x, y)], f_of(x as usize), f_of(y as usize), z_) by {
+            assert(covers(tiles@, t_, x, y));
+            assert(covered(tiles@, tiles@.len() as int, t_, x, y));
+        }
+    }"""
+
+
+def build_render(f, trace):
+    q = 'render'
+    f = sub_once(f, 'render_config.width().max(render_config.height())', 'max_u32(render_config.width(), render_config.height())', q)
+    trace.fire('R-minmax')
+    f = sub_once(f, 'super::render_tiles::<F, Worker<F>, _>(', 'render_tiles::<F>(   // R-stub: the worker type and the config type are fixed in the stand-in', q)
+    f = sub_once(f, '    for (tile, data) in tiles.iter() {\n', '    for k_ in 0..tiles.len() {\n        let (tile, data) = (&tiles[k_].0, &tiles[k_].1);   // R-iter-tuple\n', q)
+    trace.fire('R-iter-tuple')
+    f, n = re.subn(r'\btile_sizes\[0\]', '*tile_sizes.index(0)', f)
+    if n != 2:
+        raise ExtractError('render: R-index expected 2 uses of tile_sizes[0], found %d' % n)
+    trace.fire('R-index', n)
+    f, n = re.subn(r'image\[\((\w+), (\w+)\)\] = data\[(\w+)\];', r'let p_ = image.decode_position((\1, \2));   // R-imgindex: IndexMut<(usize, usize)> / Index<usize> of Image\n                    image.data[p_] = data.data[\3];', f)
+    if n != 1:
+        raise ExtractError('render: R-imgindex expected one pixel copy, found %d' % n)
+    trace.fire('R-imgindex', 2)
+    f = sub_once(f, ') -> Option<Image> {', ') -> (r: Option<Image>)\n/*@spec*/' + RENDER_SPEC.rstrip('\n') + '\n/*@endspec*/{', q)
+    return f
+
+
+def place_render_proofs(text, trace):
+    from lib.verus_engine import locate_fn
+    i, j, k = locate_fn(text, 'render')
+    seg = text[i:k]
+    q = 'render'
+    try:
+        seg = after_line(seg, 'let mut image = Image::new(render_config.image_size);', RD_START, q)
+        seg = loop_inv(seg, r're:for k_ in \S+\.\.\S+', RD_INV_K, q)
+        seg = after_line(seg, 'let mut index = 0;', RD_K_BODY, q)
+        seg = loop_inv(seg, r're:for j in \S+\.\.\S+', RD_INV_J, q)
+        seg = before_line(seg, r're:let y = .*;', RD_J_BODY, q)
+        seg = loop_inv(seg, r're:for i in \S+\.\.\S+', RD_INV_I, q)
+        seg = before_line(seg, r're:let p_ = image\.decode_position\(.*', RD_WRITE, q)
+        seg = before_line(seg, 'Some(image)', RD_END, q)
+        # end of the k_ loop body: the closing brace of the j loop is followed by the closing brace of the k_ loop
+        m = re.search(r'\n        \}\n    \}\n(?=    proof \{\n        assert forall\|x: int, y: int\| 0 <= x < w_ && 0 <= y < h_ implies)', seg)
+        if not m:
+            raise LostAnchor('render: end of the tile loop not found')
+        seg = seg[:m.start()] + '\n        }\n' + RD_K_END + '\n    }\n' + seg[m.end():]
+    except LostAnchor as e:
+        trace.lost.setdefault('render', []).append(str(e))
+        return text
+    return text[:i] + seg + text[k:]
+
+
 def after_line(text, line, add, what, occ=0):
     """insert `add` after the occ-th line equal (modulo leading/trailing blanks) to `line`"""
     lines = text.split('\n')
@@ -434,13 +547,83 @@ def build(repo, trace):
     trace.items += [(PIX_RS, 'Worker::render_tile_recurse'), (PIX_RS, 'Worker::render_tile_pixels')]
     trace.drop('everything else of fidget-raster (RenderConfig, RawDistancePixel packing, Worker::new / render_tile, render, render_tiles, voxel.rs, effects.rs); '
                'the real ShapeTracingEval / ShapeBulkEval / RenderHandle / Interval / nalgebra types (stand-ins with stated contracts)')
-    pre = open(os.path.join(HERE, 'static_pre.rs')).read()
+    # ---- whole-image assembly: RenderSize, Image (as GenericImage), RenderConfig, render
+    i, j, k = rsx.find_item(lib, r'^trait RenderSize\b', 0, 'trait RenderSize')
+    rs_tr = lib[i:k]
+    if norm(rs_tr) != norm('trait RenderSize { fn width(&self) -> u32; fn height(&self) -> u32; }'):
+        raise ExtractError('trait RenderSize changed')
+    rs_tr = ('pub trait RenderSize {\n    spec fn w_(&self) -> u32;\n    spec fn h_(&self) -> u32;\n    fn width(&self) -> (r: u32) ensures r == self.w_();\n    fn height(&self) -> (r: u32) ensures r == self.h_();\n}')
+    i, j, k = rsx.find_item(lib, r'^impl RenderSize for pixel::RenderSize', 0, 'impl RenderSize for pixel::RenderSize')
+    rs_impl = lib[i:k]
+    rs_impl = sub_once(rs_impl, 'impl RenderSize for pixel::RenderSize {', 'impl RenderSize for ImageSize {   // pixel::RenderSize is fidget_core::render::ImageSize\n    open spec fn w_(&self) -> u32 { self.w }\n    open spec fn h_(&self) -> u32 { self.h }', 'impl RenderSize for pixel::RenderSize')
+    i, j, k = rsx.find_item(lib, r'^struct Image<P, S = ImageSize>', 0, 'struct Image')
+    img = re.sub(r'#\[derive\([^\]]*\)\]\n', '', lib[i:k])
+    if norm(img) != norm('struct Image<P, S = ImageSize> { data: Vec<P>, size: S, }'):
+        raise ExtractError('struct Image changed')
+    img = 'pub struct GenericImage<P, S = ImageSize> {   // R-alias: pixel.rs imports `Image as GenericImage`\n    pub data: Vec<P>,\n    pub size: S,\n}'
+    a, b = rsx.impl_block(lib, r'^impl<P, S: RenderSize> Image<P, S>', 'impl Image (width, height, decode_position)')
+    ifns = []
+    for name in ('width', 'height', 'decode_position'):
+        i2, j2, k2 = rsx.find_fn(lib, name, a, b)
+        ifns.append(lib[rsx.line_start(lib, i2):k2])
+        trace.items.append((LIB_RS, 'Image::' + name))
+    a, b = rsx.impl_block(lib, r'^impl<P: Default \+ Clone, S: RenderSize> Image<P, S>', 'impl Image (new)')
+    i2, j2, k2 = rsx.find_fn(lib, 'new', a, b)
+    f_inew = lib[rsx.line_start(lib, i2):k2]
+    m_v = re.search(r'vec!\[\s*P::default\(\);\s*([^\]]+?)\s*\]', f_inew)
+    if not m_v:
+        raise ExtractError('Image::new: vec! initialiser changed')
+    f_inew = f_inew[:m_v.start()] + 'vec_default(\n                ' + m_v.group(1) + '\n            )' + f_inew[m_v.end():]   # R-vecmacro
+    trace.fire('R-vecmacro')
+    trace.items.append((LIB_RS, 'Image::new'))
+    # the (row, col) Index impls that R-imgindex stands for
+    for hdr, body in ((r'^impl<P, S: RenderSize> std::ops::Index<\(usize, usize\)> for Image<P, S>', 'let index = self.decode_position(pos); &self.data[index]'),
+                      (r'^impl<P, S: RenderSize> std::ops::IndexMut<\(usize, usize\)> for Image<P, S>', 'let index = self.decode_position(pos); &mut self.data[index]')):
+        a, b = rsx.impl_block(lib, hdr, hdr)
+        if norm(body) not in norm(lib[a:b]):
+            raise ExtractError('(row, col) Index impl of Image changed: R-imgindex not applicable')
+    image_text = ('#[derive(Copy, Clone)]\npub struct ImageSize { pub w: u32, pub h: u32 }\nimpl ImageSize {\n    pub fn width(&self) -> (r: u32) ensures r == self.w { self.w }\n    pub fn height(&self) -> (r: u32) ensures r == self.h { self.h }\n}\n'
+                  + rs_tr + '\n' + rs_impl + '\n' + img + '\npub type Image = GenericImage<RawDistancePixel>;\n'
+                  + 'impl<P, S: RenderSize> GenericImage<P, S> {\n' + '\n\n'.join(ifns) + '\n}\n'
+                  + '/// R-vecmacro: `vec![P::default(); n]`\n#[verifier::external_body]\npub fn vec_default<P: Default + Clone>(n: usize) -> (r: Vec<P>) ensures r@.len() == n { vec![P::default(); n] }\n'
+                  + 'impl<P: Default + Clone, S: RenderSize> GenericImage<P, S> {\n' + f_inew + '\n}\n')
+    if not re.search(r'^type Image = GenericImage<RawDistancePixel>;', pix, re.M) or 'Image as GenericImage' not in pix:
+        raise ExtractError('pixel.rs: type Image alias changed')
+    asm, f_render = '', ''
+    try:
+        i, j, k = rsx.find_item(pix, r'^struct RenderConfig\b', 0, 'struct RenderConfig')
+        rc = pix[i:k]
+        for fld, ty in (('image_size', 'RenderSize'), ('world_to_model', 'Matrix3<f32>'), ('pixel_perfect', 'bool'), ('z', 'f32')):
+            if not re.search(r'^    %s: %s,' % (fld, re.escape(ty)), rc, re.M):
+                raise ExtractError('struct RenderConfig: field %s changed' % fld)
+        rc = rc.replace('image_size: RenderSize,', 'image_size: ImageSize,   // type RenderSize = ImageSize')
+        rc = re.sub(r'^    (\w+):', r'    pub \1:', rc.replace('struct RenderConfig', 'pub struct RenderConfig'), flags=re.M)
+        rc = re.sub(r'#\[derive\([^\]]*\)\]\n', '', rc)
+        i, j, k = rsx.find_item(pix, r'^impl crate::RenderSize for RenderConfig', 0, 'impl RenderSize for RenderConfig')
+        rc_impl = pix[i:k]
+        rc_impl = sub_once(rc_impl, 'impl crate::RenderSize for RenderConfig {', 'impl RenderSize for RenderConfig {\n    open spec fn w_(&self) -> u32 { self.image_size.w }\n    open spec fn h_(&self) -> u32 { self.image_size.h }', 'impl RenderSize for RenderConfig')
+        ec = rsx.get_item(pix, r"^struct EvalConfig<'a>", 0, 'struct EvalConfig')
+        if not re.search(r'^    tile_sizes: Option<TileSizes>,', ec, re.M):
+            raise ExtractError('struct EvalConfig: field tile_sizes changed')
+        i, j, k = rsx.find_fn(pix, 'render', 0, None)
+        f_render = build_render(pix[rsx.line_start(pix, i):k], trace)
+        trace.items += [(LIB_RS, 'trait RenderSize, impl RenderSize for pixel::RenderSize, struct Image'), (PIX_RS, 'struct RenderConfig, impl RenderSize for RenderConfig, render')]
+        asm = open(os.path.join(HERE, 'static_asm.rs')).read().replace('/*@RENDERCONFIG@*/', rc + '\n' + rc_impl)
+    except ExtractError as e:
+        # the assembly part alone is undecided; the worker part of the unit is unaffected
+        for q_ in ('render', 'lemma_suffix_wf', 'lemma_root_off'):
+            trace.lost.setdefault(q_, []).append('assembly part not extracted: %s' % e)
+        asm, f_render = '', ''
+    pre = open(os.path.join(HERE, 'static_pre.rs')).read().replace('/*@IMAGE@*/', image_text)
     voc = open(os.path.join(HERE, 'static_voc.rs')).read()
     text = ('use vstd::prelude::*;\nuse vstd::std_specs::cmp::*;\nuse core::cmp::Ordering;\nverus! {\n' + pre + '\n// ---------- tiles (real text of fidget-raster/src/lib.rs)\n'
             + tile + '\n\nimpl<const N: usize> Tile<N> {\n' + t_new + '\n\n' + t_add + '\n}\n\n' + tsr + "\n\nimpl<'a> TileSizesRef<'a> {\n    pub open spec fn wf(&self) -> bool { sizes_wf(self.0@) }\n"
             + f_index + '\n\n' + f_get + '\n\n' + f_off + '\n}\n\n// ---------- the worker (real text of fidget-raster/src/pixel.rs)\n' + sc + '\n\n' + wk + '\n\n' + voc
-            + "\nimpl<F: Function> Worker<'_, F> {\n" + f_rec + '\n\n' + f_pix + '\n}\n' + '\n} // verus!\nfn main() {}\n')
+            + "\nimpl<F: Function> Worker<'_, F> {\n" + f_rec + '\n\n' + f_pix + '\n}\n' + asm + '\n' + f_render + '\n' + '\n} // verus!\nfn main() {}\n')
+    text = text.replace('verus! {\n', 'verus! {\nglobal size_of usize == 8;   // x86_64 / aarch64\n', 1)
     text = place_proofs(text, trace)
+    if f_render:
+        text = place_render_proofs(text, trace)
     # the call site proof goes after the closing `);` of the recursive call
     m = re.search(r'\n( *)self\.render_tile_recurse\(\n(?:.*\n)*?\1\);\n', text)
     if m and 'Worker::render_tile_recurse' not in trace.lost:
@@ -451,6 +634,11 @@ def build(repo, trace):
     inj = Injector(text, trace)
     inj.spec('Worker::render_tile_recurse', None, RECURSE_SPEC)
     inj.spec('Worker::render_tile_pixels', None, PIXELS_SPEC)
+    inj.spec('GenericImage::width', 'r: usize', '\n        ensures r == self.size.w_()\n')
+    inj.spec('GenericImage::height', 'r: usize', '\n        ensures r == self.size.h_()\n')
+    inj.spec('GenericImage::decode_position', 'r: usize', '\n        requires pos.0 < self.size.h_(), pos.1 < self.size.w_(), self.size.h_() * self.size.w_() <= usize::MAX   // the two assertions of the function\n        ensures r == pos.0 * self.size.w_() + pos.1\n')
+    inj.proof('GenericImage::decode_position', 're:assert!\\(col < self\\.width\\(\\)\\);', '        proof { assert(row * self.size.w_() + col < self.size.h_() * self.size.w_()) by (nonlinear_arith) requires row < self.size.h_(), col < self.size.w_(); }')
+    inj.spec('GenericImage::new', 'r: Self', '\n        requires size.w_() * size.h_() <= usize::MAX\n        ensures r.size == size, r.data@.len() == size.w_() * size.h_()\n')
     inj.spec('Tile::new', 'r: Tile<N>', '\n        ensures r.corner == corner\n')
     inj.spec('Tile::add', 'r: Point2<usize>', '\n        requires self.corner.x + pos.x <= usize::MAX, self.corner.y + pos.y <= usize::MAX\n        ensures r.x == self.corner.x + pos.x, r.y == self.corner.y + pos.y\n')
     inj.spec('TileSizesRef::index', 'r: &usize', '\n        requires i < self.0@.len()\n        ensures *r == self.0@[i as int]\n')
@@ -462,7 +650,12 @@ def build(repo, trace):
             Obligation('raster::Worker::render_tile_pixels', 'raster', 'Worker::render_tile_pixels', props=PROPS)]
     for f in ('Tile::new', 'Tile::add', 'TileSizesRef::index', 'TileSizesRef::get', 'TileSizesRef::pixel_offset'):
         obls.append(Obligation('raster::' + f, 'raster', f, props=PROPS))
+    obls.append(Obligation('raster::render', 'raster', 'render', props=PROPS, note='assembly of the root tiles into the image; render_tiles is a stand-in'))
+    for f in ('GenericImage::width', 'GenericImage::height', 'GenericImage::decode_position', 'GenericImage::new'):
+        obls.append(Obligation('raster::' + f.replace('GenericImage', 'Image'), 'raster', f, props=PROPS))
+    for l in ('lemma_suffix_wf', 'lemma_root_off'):
+        obls.append(Obligation('raster::' + l, 'raster', l, props=PROPS, kind='lemma'))
     obls.append(Obligation('raster::fill_range', 'raster', 'fill_range', props=PROPS, kind='lemma', note='model of `image[s..][..n].fill(v)`'))
     for l in ('lemma_sizes_desc', 'lemma_mod_shift', 'lemma_loc_bound', 'lemma_loc_inj', 'lemma_divmod_idx', 'lemma_off_bound', 'lemma_off', 'lemma_off_inj'):
         obls.append(Obligation('raster::' + l, 'raster', l, props=PROPS, kind='lemma'))
-    return {'texts': {'base': inj.s}, 'obligations': obls, 'canary_fns': ['Worker::render_tile_recurse', 'Worker::render_tile_pixels', 'TileSizesRef::pixel_offset']}
+    return {'texts': {'base': inj.s}, 'obligations': obls, 'canary_fns': ['Worker::render_tile_recurse', 'Worker::render_tile_pixels', 'TileSizesRef::pixel_offset', 'render']}
